@@ -3,7 +3,14 @@ import ast
 T = 'src/pharmpy/model/external/nonmem/table.py'
 R = 'src/pharmpy/tools/external/nonmem/results.py'
 W = 'src/pharmpy/workflows/results.py'
+def text_edit(old, new):
+    def edit(src):
+        return src.replace(old, new, 1) if old in src else None
+    return edit
 MUTANTS = [
+    Mutant('table_block_cleared', 'src/pharmpy/tools/external/nonmem/results_file.py', text_edit("                if bool(block):\n                    yield (table_number, block)\n                block = {}", "                if bool(block):\n                    yield (table_number, block)\n                    block.clear()"), 'Y0', 'yielded dict reused'),
+    Mutant('mu_inits_override', 'src/pharmpy/tools/external/nonmem/results.py', text_edit("value = expr.subs(dict(pe)).subs(model.parameters.inits)", "value = expr.subs({**dict(pe), **model.parameters.inits})"), 'Z8', 'inits override final estimates'),
+    Mutant('phi_etas_own_filter', 'src/pharmpy/model/external/nonmem/table.py', text_edit("        df = self._df\n        df = df.loc[df.iloc[:, 2:].any(axis=1)]\n        eta_col_names = [col for col in df if col.startswith('ETA') or col.startswith('PHI')]\n        etas = df[eta_col_names]", "        df = self._df\n        eta_col_names = [col for col in df if col.startswith('ETA') or col.startswith('PHI')]\n        df = df.loc[df[eta_col_names].any(axis=1)]\n        etas = df[eta_col_names]"), 'Z9', 'view with another row filter'),
     Mutant('se_wrong_code', T, edit_node('ExtTable.standard_errors', lambda n, seg: isinstance(n, ast.UnaryOp) and seg == '-1000000001', lambda seg: '-1000000002'), 'Z1', 'eigenvalue row as SE'),
     Mutant('fixed_wrong_code', T, edit_node('ExtTable.fixed', lambda n, seg: isinstance(n, ast.UnaryOp) and seg == '-1000000006', lambda seg: '-1000000005'), 'Z1', 'wrong row for fixed flags'),
     Mutant('final_from_last_iteration', T, edit_node('ExtTable.final_ofv', lambda n, seg: isinstance(n, ast.Try), lambda seg: 'ser = self._get_ofv(max(self.iterations))'), 'Z1', 'last printed iteration reported as final'),
